@@ -46,7 +46,9 @@ func (ex *Exec) elem0(p *Ptr) *Ptr {
 }
 
 // ReadArray reads the n bytes of the byte array p points to.
-func (ex *Exec) ReadArray(st *State, p *Ptr, n int) *sym.Term { return ex.ReadBytes(st, ex.elem0(p), n) }
+func (ex *Exec) ReadArray(st *State, p *Ptr, n int) *sym.Term {
+	return ex.ReadBytes(st, ex.elem0(p), n)
+}
 
 // WriteArray writes n bytes of t into the byte array p points to and returns p[:].
 func (ex *Exec) WriteArray(st *State, p *Ptr, t *sym.Term, n int) *SliceVal {
